@@ -13,7 +13,7 @@
   of registered types are universally quantified over well-formed layouts
   (alignment a power of two dividing the size — `Layout::new`'s assertions).
 -/
-import RotoV.Lemmas.BoundaryAbi
+import RotoV.Lemmas.BoundaryPlace
 import RotoV.Lemmas.BoundaryValues
 
 namespace RotoV.C05
@@ -116,6 +116,26 @@ example : (RVal.some (.err .unit)).hasShape (.option (.result .leaf .unit)) = tr
 /-- what the theorem excludes: were `RotoOption` declared `None` first, the script would read
     Rust's `Some(x)` as the other variant. -/
 example : decode (fun _ => [(.None, []), (.Some, [0])]) (.option .leaf) (.tagged 0 none) = some .none := rfl
+
+/-! ## T4′ — the same bytes -/
+
+/-- **`placement_agrees`** (∀ boundary types of any nesting, ∀ transformed values, ∀ base offsets,
+    ∀ host and registered layouts).  Every discriminant byte and every leaf of a value lies at the
+    same offset whether one follows rustc's `#[repr(u8)]` layout in the mirror enums' declaration
+    order (`rustPlace`: tag at 0, payload at `roundUp 1 align`) or the offsets a script computes
+    (`rotoPlace`: `Discriminant` at 0, `VariantField(_, 0)` through `layout_of`, variants numbered by
+    `default_types()`).  With `roundtrip` (the discriminants mean the same variant) this is
+    "structurally equal" at the level of memory. -/
+theorem placement_agrees (h : HostLayouts) (hh : h.WF) (t : BTy) (ht : t.WF) (v : TVal) (b : Nat) :
+    rotoPlace h t v b = rustPlace h t v b :=
+  placement_agrees' h hh t ht v b
+
+/-- non-vacuity: `Some(Err("…"))` of `Option<Result<u16, String>>` on x86-64 — outer tag at 0, inner
+    tag at 8, the string at 16 -/
+example :
+    rustPlace .x64 (.option (.result (.prim (.Int .Unsigned .I16)) (.prim .String)))
+      (.tagged 0 (some (.tagged 1 (some (.leaf 7))))) 0 = some [(0, .tag 0), (8, .tag 1), (16, .leaf 7)] := by
+  decide
 
 /-! ## T5 — calling conventions -/
 
